@@ -20,6 +20,11 @@ def add(pid, technique, text, note="", design_ref=None):
     CHECKS[pid] = (technique, text, note, design_ref or "3 (%s)" % pid)
 
 
+add("C14",
+    "CrossHair/z3 exploration of all schedules (arrival vs consumer completion) over the real latest() code on the virtual loop",
+    "Bounded symbolic model checking: every interleaving of up to the stated number of arrivals and consumer completions is explored (solver forks at every schedule choice); CONFIRMED means the path tree was exhausted.",
+    "Payloads are distinct tokens; only the schedule is symbolic.")
+
 add("C13",
     "CrossHair/z3 symbolic execution of the real rate_limit/delay code on a virtual event loop "
     "with symbolic arrival gaps, interval and handling durations; AST->SMT inductive lemma "
